@@ -222,6 +222,21 @@ Proof.
 Qed.
 Print Assumptions C16_type_order_irrelevant.
 
+(* ... and for WHOLE RUNS: replace the two extracted signal-type tables by any permutations of them (= any hash order
+   of the Python sets, in every observe / unobserve of the history): every observation of every history from every
+   case - statuses, returned values, deliveries in order, live registry, values - is identical *)
+Theorem C16_type_order_irrelevant_runs : forall l1 l2,
+  Permutation (tb_obs_types gen_sig_tables) l1 -> Permutation (tb_list_types gen_sig_tables) l2 ->
+  tables_ok (retype gen_sig_tables l1 l2) = true ->
+  forall (c : case) (ops : list op),
+    run_ops gen_sig_tables (init_state c) ops = run_ops (retype gen_sig_tables l1 l2) (init_state c) ops.
+Proof.
+  intros l1 l2 P1 P2 Hok' c ops.
+  exact (run_ops_retype gen_sig_tables l1 l2 P1 P2 C16_source_tables_ok Hok' ops (init_state c) (init_state c)
+           (state_eq_refl (init_state c))).
+Qed.
+Print Assumptions C16_type_order_irrelevant_runs.
+
 (* ------------------------------------------------------------------ code-level T1: the translated source
    gen_observe, gen_unobserve, gen_clear_all_subscriptions, gen_mesa_notify and gen_sl_setitem / delitem / insert /
    append are TRANSLATED from the bodies of the functions in the working tree on every run (harness/tables/
@@ -354,6 +369,19 @@ Theorem C16_unobserve_silences_reentrant_refuted :
 Proof. exists [(1, HUnobserve 2)], [1; 2]. vm_compute. split; reflexivity. Qed.
 Print Assumptions C16_unobserve_silences_reentrant_refuted.
 
+(* assignments made by handlers (model assign_re / walk, in the correspondence): the outer store wins ... *)
+Theorem C16_reentrant_outer_store_wins : forall fuel sc v w w' obj,
+  assign_re fuel sc v w = Some (w', obj) -> w_val w' = v.
+Proof. exact outer_store_wins. Qed.
+Print Assumptions C16_reentrant_outer_store_wins.
+
+(* ... and the nested assignment reports as `old` the value from before the OUTER assignment, is delivered to all
+   handlers before the outer signal reaches the later ones: handler 1 assigns 10 when it sees new = 1 *)
+Example C16_example_reentrant_assign :
+  run_rcase2 {| rc2_subs := [1; 2]; rc2_script := [(1, AAssignIf 1 10)]; rc2_init := 0; rc2_values := [1] |} =
+  [[1; 0; 1;  1; 0; 10;  2; 0; 10;  2; 0; 1;  -7; 1; 2; -6; 1]].
+Proof. vm_compute. reflexivity. Qed.
+
 (* a handler subscribed by another handler during the round is reached by the same loop (called in that round) *)
 Example C16_example_reentrant_observe :
   run_rounds [(1, HObserve 3)] 2 [1; 2] = [[1; 2; 3; -7; 1; 2; 3]; [1; 2; 3; 3; -7; 1; 2; 3; 3]].
@@ -454,3 +482,15 @@ Example C16_example_stdlib :
   (exists es, src_clear_list gen_sig_tables 3 ([5; 6], []) = inl (([], es), None) /\ length es = 2%nat) /\
   (exists es, src_extend gen_sig_tables ([1; 2], []) [9] true = inl (([1; 2; 1; 2], es), None)).
 Proof. vm_compute. repeat split; try reflexivity; eexists; split; reflexivity || reflexivity. Qed.
+(* the hypotheses of C16_type_order_irrelevant_runs hold for a real reordering of the ObservableList type set *)
+Example C16_example_retype :
+  tables_ok (retype gen_sig_tables [1] [5; 3; 1; 4; 2]) = true /\
+  Permutation (tb_list_types gen_sig_tables) [5; 3; 1; 4; 2].
+Proof.
+  split; [vm_compute; reflexivity|]. vm_compute.
+  apply (Permutation_trans (l' := [5; 1; 2; 3; 4])).
+  - change [1; 2; 3; 4; 5] with ([1; 2; 3; 4] ++ [5]). apply Permutation_sym. apply (Permutation_cons_append [1; 2; 3; 4] 5).
+  - apply perm_skip. apply (Permutation_trans (l' := [3; 1; 2; 4])).
+    + apply (Permutation_trans (l' := [1; 3; 2; 4])); [apply perm_skip; apply perm_swap|apply perm_swap].
+    + apply perm_skip. apply perm_skip. apply perm_swap.
+Qed.
